@@ -588,7 +588,7 @@ func (vm *Thread) run() {
 			if !err.IsUndefined() {
 				vm.pop()
 				vm.rethrow(err, vm.BuildStackTracePrepend(stackTrace))
-				return
+				continue
 			}
 
 			vm.replace(result)
@@ -606,7 +606,7 @@ func (vm *Thread) run() {
 			if !err.IsUndefined() {
 				vm.pop()
 				vm.rethrow(err, vm.BuildStackTracePrepend(stackTrace))
-				return
+				continue
 			}
 
 			vm.replace(result)
@@ -619,7 +619,7 @@ func (vm *Thread) run() {
 			if !err.IsUndefined() {
 				vm.pop()
 				vm.rethrow(err, vm.BuildStackTracePrepend(stackTrace))
-				return
+				continue
 			}
 
 			vm.replace(result)
